@@ -177,6 +177,17 @@ func c08VarInvalid(c *core.Check) {
 	}
 	for _, a := range inv {
 		in := a.(ssa.Instruction)
+		// the result must decide a branch (the rest of the check follows its true side)
+		tested := false
+		for _, ref := range *a.Referrers() {
+			if _, ok := ref.(*ssa.If); ok {
+				tested = true
+			}
+		}
+		if !tested {
+			r.Fail(key, p.Pos(in.Pos()), "the result of resolveVar that reports an unusable reference is not tested: the rest of the value is validated as if the reference were empty")
+			continue
+		}
 		reach := core.ForwardReach(in.Block(), map[ssa.Value]bool{a: true}, nil)
 		bad := ""
 		core.Instrs(cv, func(in2 ssa.Instruction) {
